@@ -67,6 +67,9 @@ fn child(args: &Args) {
         out.evals += o.trace.len() as u64;
         out.count("histories", 1);
         for (k, v) in &o.stats { out.count(k, *v); }
+        if o.f28 > 0 {
+            out.count("f28_on_exit_after_close_callbacks", o.f28);
+        }
         for s in &o.sigs { out.distinct_str(s); }
         if let Some((tag, e)) = o.errors.first() {
             if *tag == MY || e.contains("panic") {
